@@ -55,6 +55,58 @@ def rule_occupant(ck, rid="C13.R2"):
                bad="BaseEVSE.unplug must set _ev to None on every path", sink="unplug-store")
 
 
+def rule_set_pilot_table(ck, rid="C13.R1"):
+    """decision table of BaseEVSE.set_pilot: on every accepting path the pilot is latched exactly once (also on a vacant station) and
+    a connected EV is charged exactly once with (pilot, voltage, period); a rejecting path ends in the raise with no effect."""
+    from .. import pathtab
+    repo = ck.repo
+    sp = repo.method(repo.cls("BaseEVSE"), "set_pilot")
+    fl = flow_of(sp)
+    pilot, voltage, period = sp.params[1:4]
+    rows = pathtab.table(fl)
+    ck.count("decision-table rows (set_pilot)", len(rows))
+
+    def valid(k, a):
+        return isinstance(a, ast.Call) and call_name(a) == "_valid_rate" and a.args and canon(a.args[0]) == pilot
+
+    def vacant(k, a):
+        return k in ("self._ev is None", "self.ev is None")
+
+    def latch(kind, k, a):
+        return kind == "store" and k == f"self._current_pilot = {pilot}"
+
+    def any_store(kind, k, a):
+        return kind in ("store", "mut")
+
+    def charge(kind, k, a):
+        return kind == "call" and k in (f"self._ev.charge({pilot}, {voltage}, {period})", f"self.ev.charge({pilot}, {voltage}, {period})")
+
+    def any_charge(kind, k, a):
+        return kind == "call" and k.endswith(")") and ".charge(" in k
+    acc = [r for r in rows if r.fact(valid) is True]
+    rej = [r for r in rows if r.fact(valid) is False]
+    pathtab.must_on(ck, rid, sp, acc, latch, 1, "the accepted pilot is recorded as the station's current pilot", "table:latch",
+                    ok="every accepted pilot is latched, whether or not an EV is connected")
+    pathtab.must_on(ck, rid, sp, [r for r in acc if r.fact(vacant) is False], charge, 1, "the connected EV is charged with (pilot, voltage, period)", "table:charge",
+                    ok="a connected EV is charged exactly once per accepted pilot")
+    pathtab.must_on(ck, rid, sp, [r for r in acc if r.fact(vacant) is True], any_charge, 0, "no charge call on a vacant station", "table:charge-vacant", floor=0)
+    pathtab.must_on(ck, rid, sp, rej, any_store, 0, "a rejected pilot changes no state", "table:reject-store")
+    pathtab.must_on(ck, rid, sp, rej, any_charge, 0, "a rejected pilot charges nobody", "table:reject-charge")
+    bad_end = [r for r in rej if r.end != "raise"]
+    ck.require(not bad_end, rid, sp, bad_end[0].describe(160) if bad_end else "rejecting paths", ok="every rejecting path raises",
+               bad="a path on which _valid_rate(pilot) is false returns normally: the invalid pilot is silently dropped", sink="table:reject-raise")
+    # overrides in subclasses must go through the base implementation on every path
+    for sub in repo.subclasses("BaseEVSE"):
+        m = sub.methods.get("set_pilot")
+        if m is None:
+            continue
+        sfl = flow_of(m)
+        srows = [r for r in pathtab.table(sfl) if r.end != "raise"]
+        def via_super(kind, k, a):
+            return kind == "call" and k.startswith("super().set_pilot(")
+        pathtab.must_on(ck, rid, m, srows, via_super, 1, f"{sub.name}.set_pilot delegates to BaseEVSE.set_pilot on every returning path", f"override:{sub.name}")
+
+
 def rule_validate_before_mutate(ck, rid="C13.R1"):
     repo = ck.repo
     base = repo.cls("BaseEVSE")
@@ -360,8 +412,12 @@ def rule_cache(ck, rid="C13.R6"):
 
 def run(ck):
     rule_validate_before_mutate(ck)
+    rule_set_pilot_table(ck)
     rule_occupant(ck)
     rule_exhaustive(ck)
     rule_agreement(ck)
     rule_finite_normalisation(ck)
     rule_cache(ck)
+    # what is advertised stays truthful only if no scheduler can edit the network's cache through an object it was handed
+    from .c05 import rule_escape
+    rule_escape(ck, rid="C13.R7")
